@@ -146,6 +146,11 @@ def c17(work, tier, seed, replay):
     out = tunnel_family("C17", work, tier, seed, scripts, design, jobs=16,
                         extra_cov={"caps_model": {"states": caps.get("distinct"), "note": "Match checked against its bitwise restatement for all 4 x 65536 pairs"},
                                    "exhaustive": tier == "thorough"})
+    import fam_gateway as fg
+    ov, nov = fg.overlap_run("C17", work, tier, seed, design)
+    out.violations += ov.violations
+    out.coverage["overlap"] = {"scripts": nov, "evaluations": ov.coverage.get("evaluations"), "rule": "handshakes whose answer is held between being built and being written while another tunnel's "
+                               "handshake (other version bytes, other offer, other outcome) is handled completely: every client reads the answer to its own request"}
     out.coverage["rule"] = ("every server setting {cookie, smart card} x client capability value (quick: all low-6-bit values, each low nibble with sampled high bits, 300 random; "
                             "thorough: all 65536) run as a real handshake, version bytes varied per script; verdict by TLC (G_C17_MatchIff, G_C17_AdvertiseEcho)")
     return out
@@ -160,6 +165,11 @@ def c16(work, tier, seed, replay):
     scripts = ft.gen_c16_scripts(tier, seed)
     out = tunnel_family("C16", work, tier, seed, scripts, design, jobs=16,
                         extra_cov={"redir_model": {"states": redir.get("distinct"), "note": "RedirFlags vs per-device Redirectable for all 128 switch combinations"}})
+    import fam_gateway as fg
+    ov, nov = fg.overlap_run("C16", work, tier, seed, design)
+    out.violations += ov.violations
+    out.coverage["overlap"] = {"scripts": nov, "evaluations": ov.coverage.get("evaluations"), "rule": "every answer (handshake, tunnel, authorisation, channel, close) held between being built and being "
+                               "written while another tunnel's request is handled completely: type, length, fields and status are still those of the own request"}
     out.coverage["rule"] = ("all 128 redirect-switch combinations x idle-timeout classes x capability settings, one gateway instance per configuration, "
                             "8 request outcomes each (accepted, wrong phase, denied host, unreachable host, capability mismatch, bad cookie, repeated step, early close); "
                             "raw responses decoded by the harness's independent MS-TSGU decoder; verdict by TLC (G_C16_*)")
